@@ -112,6 +112,29 @@ class OpGen:
     def bad(self, p):
         return self.rng.random() < p * self.refusal_rate
 
+    # -- locality: follow-up edits aim at the neighbourhood of the previous ones (defects
+    #    that need two or three related edits in a row are otherwise reached too rarely)
+    focus: frozenset = frozenset()
+
+    def note(self, op, tracks):
+        g = tracks.graph
+        named = named_of(tracks, op)["nodes"] if op.get("op") != "features" else set()
+        near = set()
+        for n in named:
+            if n in g:
+                near.add(int(n))
+                near.update(int(x) for x in g.predecessors(n))
+                near.update(int(x) for x in g.successors(n))
+                for p_ in list(g.predecessors(n)):
+                    near.update(int(x) for x in g.successors(p_))  # siblings
+        self.focus = frozenset(near) if near else self.focus
+
+    def pick_node(self, tracks, nodes, p=0.3):
+        loc = [n for n in nodes if n in self.focus]
+        if loc and self.rng.random() < p:
+            return self.rng.choice(loc)
+        return self.rng.choice(nodes)
+
     # -- scripted multi-step scenarios (the sequences the properties name); every step is
     #    resolved against the state it meets, a step that cannot be resolved ends the script
     queue: list = ()
@@ -309,7 +332,11 @@ class OpGen:
         tids = used_track_ids(tracks)
         nxt = tracks.get_next_track_id()
         r = rng.random()
-        if tids and r < 0.6:
+        ftids = sorted({int(tracks.get_track_id(n)) for n in self.focus
+                        if n in tracks.graph and tracks.get_track_id(n) is not None})
+        if ftids and r < 0.2:
+            op["track_id"] = int(rng.choice(ftids))
+        elif tids and r < 0.6:
             op["track_id"] = int(rng.choice(tids))
         elif r < 0.85:
             op["track_id"] = int(nxt)
@@ -405,7 +432,7 @@ class OpGen:
         nodes = list(tracks.graph.nodes)
         if self.bad(0.05) or not nodes:
             return {"op": "delete_node", "node": 9000 + rng.randrange(50)}
-        return {"op": "delete_node", "node": int(rng.choice(nodes))}
+        return {"op": "delete_node", "node": int(self.pick_node(tracks, [int(n) for n in nodes]))}
 
     # -- edges
     def gen_add_edge(self, tracks):
@@ -418,7 +445,7 @@ class OpGen:
             e = [int(rng.choice(nodes)), 9000 + rng.randrange(50)]
             rng.shuffle(e)
             return {"op": "add_edge", "edge": e, "force": force}
-        u = rng.choice(nodes)
+        u = self.pick_node(tracks, nodes)
         r = rng.random()
         tu = node_time(tracks, u)
         if r < 0.65:
@@ -437,7 +464,8 @@ class OpGen:
         edges = list(tracks.graph.edges)
         nodes = [int(n) for n in tracks.graph.nodes]
         if edges and not self.bad(0.1):
-            u, v = rng.choice(edges)
+            loc = [e for e in edges if e[0] in self.focus or e[1] in self.focus]
+            u, v = rng.choice(loc) if loc and rng.random() < 0.3 else rng.choice(edges)
             return {"op": "delete_edge", "edge": [int(u), int(v)]}
         if len(nodes) >= 2:
             u, v = rng.sample(nodes, 2)
